@@ -92,6 +92,7 @@ type c12Case struct {
 	Patterns   []string `json:"patterns"`
 	Unreadable []string `json:"mode_000_paths"`
 	Entries    int      `json:"tree_entries"`
+	Extras     []string `json:"extra_objects,omitempty"`
 	Paths      []string `json:"tree,omitempty"`
 }
 
@@ -131,7 +132,7 @@ func c12() {
 	if r.Counter("unpriv_unreadable_seen_problematic") == 0 {
 		r.Inconclusive("no unreadable object was observed as problematic in the unprivileged child")
 	}
-	r.Finish("random disk trees (files 0..200KiB around rsync block sizes, modes, portable/escaping/absolute/overlong links, FIFOs, non-UTF-8 names, .mutagen-temporary-* names, ignored names, mode-000 files and directories; directory, file and absent roots) scanned cold by the real core.Scan under 3 symlink x 2 permissions x 2 probe modes as root and as uid 65534, compared with an independent lstat/readlink/sha1 walker, with the snapshot's own counts, with the digest cache and lstat; one warm rescan per tree; non-trivial = tree with at least one entry; distinct = (uid, modes, feature set of the tree)", 40)
+	r.Finish("random disk trees (files 0..200KiB around rsync block sizes, modes, portable/escaping/absolute/overlong links, FIFOs, non-UTF-8 names, .mutagen-temporary-* names (also non-UTF-8 ones), link targets of 127..513 bytes, ignored names, mode-000 files and directories; directory, file and absent roots) scanned cold by the real core.Scan under 3 symlink x 2 permissions x 2 probe modes as root and as uid 65534, compared with an independent lstat/readlink/sha1 walker, with the snapshot's own counts, with the digest cache and lstat; one warm rescan per tree, and two scans given the previous digest cache (without / with baseline) after files were replaced by new inodes of identical size, ns-mtime and mode; non-trivial = tree with at least one entry; distinct = (uid, modes, feature set of the tree)", 40)
 }
 
 // c12Cases runs the C12 workload into dir.
@@ -189,6 +190,7 @@ func c12One(out rec, run *vk.Run, rng *rand.Rand, index int, root string, unpriv
 	}
 
 	c := c12Case{Index: index, Unpriv: unpriv, RootKind: "directory", Patterns: patTexts}
+	extraFeat := map[string]bool{}
 	switch rng.Intn(40) {
 	case 0:
 		c.RootKind = "file"
@@ -215,6 +217,44 @@ func c12One(out rec, run *vk.Run, rng *rand.Rand, index int, root string, unpriv
 		for k := rng.Intn(4); k > 0 && len(cands) > 0; k-- {
 			c.Unreadable = append(c.Unreadable, cands[rng.Intn(len(cands))])
 		}
+		// names that are temporary AND not valid UTF-8 (must be omitted like
+		// any temporary), and long link targets around the readlink buffer
+		// sizes (128, 256, 512) and the portable limit (247)
+		var dirNodes []string
+		dirNodes = append(dirNodes, "")
+		for _, p := range cands {
+			if tree[p].Kind == fsx.KDir {
+				dirNodes = append(dirNodes, p)
+			}
+		}
+		for k := rng.Intn(3); k > 0; k-- {
+			d := dirNodes[rng.Intn(len(dirNodes))]
+			name := tempPrefix + "bad\xff\xfe" + fmt.Sprint(k)
+			if rng.Intn(2) == 0 {
+				name = tempPrefix + "\xc3(" + fmt.Sprint(k)
+			}
+			if os.WriteFile(filepath.Join(fullPath(root, d), name), fsx.UniqueToken(rng, 40), 0o644) == nil {
+				c.Extras = append(c.Extras, fmt.Sprintf("%q temporary+non-UTF-8 file", join(d, name)))
+				extraFeat["temp-nonutf8"] = true
+			}
+		}
+		for k := rng.Intn(4); k > 0; k-- {
+			d := dirNodes[rng.Intn(len(dirNodes))]
+			L := []int{127, 128, 129, 130, 200, 246, 247, 248, 255, 256, 257, 400, 511, 512, 513}[rng.Intn(15)]
+			target := strings.Repeat("n/", (L-1)/2) + "n"
+			for len(target) < L {
+				target += "n"
+			}
+			name := fmt.Sprintf("longlink%d", k)
+			if os.Symlink(target, filepath.Join(fullPath(root, d), name)) == nil {
+				c.Extras = append(c.Extras, fmt.Sprintf("%q link with %d-byte target", join(d, name), L))
+				if L <= 247 {
+					extraFeat["link-long-ok"] = true
+				} else {
+					extraFeat["link-too-long"] = true
+				}
+			}
+		}
 		// executability carried by group/other bits only
 		for _, p := range cands {
 			if tree[p].Kind == fsx.KFile && rng.Intn(6) == 0 {
@@ -235,7 +275,7 @@ func c12One(out rec, run *vk.Run, rng *rand.Rand, index int, root string, unpriv
 	if len(tree) <= 40 {
 		c.Paths = describeTree(tree)
 	}
-	fmt.Printf("C12 case %d unpriv=%v root=%s entries=%d patterns=%v mode000=%v\n", index, unpriv, c.RootKind, c.Entries, patTexts, c.Unreadable)
+	fmt.Printf("C12 case %d unpriv=%v root=%s entries=%d patterns=%v mode000=%v extras=%q\n", index, unpriv, c.RootKind, c.Entries, patTexts, c.Unreadable, c.Extras)
 
 	// feature set for the distinct signature
 	feat := map[string]bool{}
@@ -273,6 +313,10 @@ func c12One(out rec, run *vk.Run, rng *rand.Rand, index int, root string, unpriv
 	if len(c.Unreadable) > 0 {
 		feat["mode000"] = true
 	}
+	for f := range extraFeat {
+		feat[f] = true
+		out.Count("trees_with:"+f, 1)
+	}
 	var feats []string
 	for f := range feat {
 		feats = append(feats, f)
@@ -306,6 +350,79 @@ func c12One(out rec, run *vk.Run, rng *rand.Rand, index int, root string, unpriv
 	if index%37 == 3 && len(tree) > 0 && len(tree) <= 25 {
 		out.Sample(c)
 	}
+	if c.RootKind == "directory" {
+		c12IdentityOnly(out, rng, c, tree, root, patTexts, ignored, index, unpriv)
+	}
+}
+
+// c12IdentityOnly: after a cold scan some files are replaced by NEW inodes of
+// identical size, nanosecond mtime and mode but different content; a scan that
+// is handed the previous digest cache (without a baseline, and with the
+// baseline plus the replaced paths as recheck paths) must still describe the
+// disk exactly.
+func c12IdentityOnly(out rec, rng *rand.Rand, c c12Case, tree fsx.Tree, root string, patTexts []string, ignored func(string, bool) bool, index int, unpriv bool) {
+	sl, pm, pr := symlinkModes[index%3], permModes[(index/3)%2], probeModes[(index/6)%2]
+	scfg := fsx.ScanConfig{Patterns: patTexts, ProbeMode: pr, SymbolicLinkMode: sl, PermissionsMode: pm}
+	modes := map[string]string{"symlinks": slName(sl), "permissions": pmName(pm), "probe": prName(pr)}
+	guard(out, map[string]any{"case": c, "modes": modes, "phase": "identity-only replacement"}, func() {
+		st, err := fsx.Cold(root, scfg)
+		if err != nil {
+			c12Violation(out, "scan-error", modes, c, "cold scan of a static tree failed: "+err.Error(), nil)
+			return
+		}
+		var files []string
+		for p, e := range st.Cache.Entries {
+			if p != "" && e.Size > 0 {
+				files = append(files, p)
+			}
+		}
+		sort.Strings(files)
+		rng.Shuffle(len(files), func(i, j int) { files[i], files[j] = files[j], files[i] })
+		var replaced []string
+		for _, p := range files {
+			if len(replaced) >= 3 {
+				break
+			}
+			if ok, _ := replaceSameMeta(fullPath(root, p)); ok {
+				replaced = append(replaced, p)
+			}
+		}
+		if len(replaced) == 0 {
+			return
+		}
+		sort.Strings(replaced)
+		fmt.Printf("C12 case %d unpriv=%v: replaced by new inodes of identical size/mtime/mode: %q\n", index, unpriv, replaced)
+		want, wstats, werr := fsx.Walk(root, fsx.WalkOptions{SymbolicLinkMode: sl, PermissionsMode: pm, Ignored: ignored})
+		if werr != nil {
+			out.Inconclusive("independent walker failed")
+			return
+		}
+		c2 := c
+		c2.Extras = append(append([]string{}, c.Extras...), fmt.Sprintf("after the first scan replaced by new inodes with identical size, mtime and mode: %q", replaced))
+		// (a) previous digest cache, no baseline
+		out.Eval(1)
+		warm, err := fsx.Accelerated(root, scfg, &fsx.ScanState{Cache: st.Cache, IgnoreCache: st.IgnoreCache}, nil)
+		if err != nil {
+			c12Violation(out, "warm-identity-scan-error", modes, c2, "warm scan failed: "+err.Error(), nil)
+		} else {
+			c12Compare(out, "warm-identity-", c2, root, warm, modes, want, wstats, unpriv)
+		}
+		// (b) baseline + cache, the replaced paths reported
+		out.Eval(1)
+		recheck := map[string]bool{}
+		for _, p := range replaced {
+			recheck[p] = true
+		}
+		acc, err := fsx.Accelerated(root, scfg, st, recheck)
+		if err != nil {
+			c12Violation(out, "baseline-identity-scan-error", modes, c2, "scan with baseline failed: "+err.Error(), nil)
+		} else {
+			c12Compare(out, "baseline-identity-", c2, root, acc, modes, want, wstats, unpriv)
+		}
+		out.Count("files_replaced_identity_only", int64(len(replaced)))
+		out.Count("warm_scans_after_identity_only_replacement", 2)
+		out.Distinct(fmt.Sprintf("%v|identity-only|%s|%s|%s|%d", unpriv, modes["symlinks"], modes["permissions"], modes["probe"], len(replaced)))
+	})
 }
 
 func c12Violation(out rec, rule string, modes map[string]string, c c12Case, what string, extra map[string]any) {
